@@ -35,7 +35,9 @@ FileRq(n, m, r) == Rq("/" \o FName(n), FName(n), m, r)
 Opt(route, ab, co, ix, ge, via) == [route |-> route, abr |-> ab, compress |-> co, idx |-> ix, gen |-> ge, via |-> via]
 Plain(ab) == Opt("fs", ab, FALSE, FALSE, FALSE, "read")
 Cs(o, reqs) == [route |-> o.route, abr |-> o.abr, compress |-> o.compress, idx |-> o.idx, gen |-> o.gen, via |-> o.via,
-                reqs |-> reqs]
+                mw |-> FALSE, reqs |-> reqs]
+\* the same with a middleware that sets a custom response header (string API) before the file handler runs
+CsMw(o, reqs) == [Cs(o, reqs) EXCEPT !.mw = TRUE]
 
 Toks == NumToks(Nums)
 RangesA_ == AllRanges(Toks)
@@ -139,13 +141,17 @@ FamW == { Cs(o, <<FileRq(n, "GET", r), FileRq(n, "GET", r)>>) :
         \cup { Cs(Opt("fs", TRUE, FALSE, ix, ge, "iocopy"), <<Rq(p, "dir", "GET", r), Rq(p, "dir", "GET", r)>>) :
             ix \in BOOLEAN, ge \in BOOLEAN, p \in {"/", "/d", "/m"}, r \in FewRanges }
 
-All == SetToSeq(FamA \cup FamB \cup FamC \cup FamD \cup FamE \cup FamF \cup FamV \cup FamG \cup FamW)
+\* ---- X: all requests of a case go through ONE recycled RequestContext (driver); here with a header-setting middleware
+FamX == { CsMw(Plain(TRUE), <<FileRq(n, ms[1], r1), FileRq(n, ms[2], r2)>>) :
+            n \in (IF Thorough THEN SeqLens ELSE {3, 8193}), r1 \in SeqRanges, r2 \in SeqRanges, ms \in {<<"GET", "GET">>, <<"HEAD", "GET">>} }
+
+All == SetToSeq(FamX \cup FamA \cup FamB \cup FamC \cup FamD \cup FamE \cup FamF \cup FamV \cup FamG \cup FamW)
 
 ASSUME RangeSemSane(Toks \cup BigToks, Lens \cup BigLens)
 ASSUME PrintT(<<"@@FAMILIES", Cardinality(FamA), Cardinality(FamB), Cardinality(FamC), Cardinality(FamD), Cardinality(FamE), Cardinality(FamF), Cardinality(FamV), Cardinality(FamG), Cardinality(FamW)>>)
 ASSUME ndJsonSerialize(IOEnv.VERIF_OUT,
          [i \in 1 .. Len(All) |-> [id |-> i, route |-> All[i].route, abr |-> All[i].abr, compress |-> All[i].compress,
-                                   idx |-> All[i].idx, gen |-> All[i].gen, via |-> All[i].via, tree |-> TreeRec,
+                                   idx |-> All[i].idx, gen |-> All[i].gen, via |-> All[i].via, mw |-> All[i].mw, tree |-> TreeRec,
                                    reqs |-> All[i].reqs]])
 GenInit == Init
 GenNext == UNCHANGED vars
